@@ -91,6 +91,28 @@ static inline void rc_rounds(hz::Ctx &ctx, const std::string &name, long long ca
   }
 }
 
+// A seeded "previous life" of an instance that stays inside every property's domain and ends with chunk fitting
+// switched off: redundant option calls, fitting switched on and off again, a failing call, a counting call, code
+// assembled and the offset moved.  `mov/swap/nobase` (0..2) are the option state the instance must end in.
+static inline void prelife(assemblyline_t a, uint64_t seed, int mov, int swap, int nobase, const std::vector<std::string> &valid) {
+  hz::Rng r(seed * 0x9e3779b97f4a7c15ULL + 5);
+  int n = (int)r.below(6);
+  for (int i = 0; i < n; i++) {
+    switch (r.below(7)) {
+      case 0: asm_set_all(a, (enum asm_opt)r.below(3)); break;
+      case 1: asm_sib(a, (enum asm_opt)r.below(2)); break;
+      case 2: { static const size_t C[] = {2, 8, 16, 17, 64, 4096, ((size_t)1 << 32) + 16}; asm_set_chunk_size(a, C[r.below(7)]); asm_set_chunk_size(a, r.below(2)); break; }
+      case 3: { asm_set_offset(a, 0); asm_assemble_str(a, "definitely not an instruction\n"); asm_set_offset(a, 0); break; }
+      case 4: { asm_set_offset(a, 0); std::string l = valid[r.below(valid.size())] + "\n"; std::vector<char> w(l.begin(), l.end()); w.push_back(0); int c = 0; static const int C[] = {0, 2, 16, 4096}; asm_assemble_string_counting_chunks(a, w.data(), C[r.below(4)], &c); asm_set_offset(a, 0); break; }
+      case 5: { asm_set_offset(a, 0); std::string l = valid[r.below(valid.size())] + "\n"; asm_assemble_str(a, l.c_str()); asm_set_offset(a, 0); break; }
+      case 6: asm_mov_imm(a, (enum asm_opt)7); break;
+    }
+  }
+  // no chunk call here: every toggle above ends with fitting switched off, which must be enough
+  asm_mov_imm(a, (enum asm_opt)mov); asm_sib_index_base_swap(a, (enum asm_opt)swap); asm_sib_no_base(a, (enum asm_opt)nobase);
+  asm_set_offset(a, 0);
+}
+
 template <typename T> static inline rc::Gen<T> fixed(rc::Gen<T> g) { return rc::gen::resize(100, std::move(g)); }
 static inline rc::Gen<int> range(int lo, int hi) { return rc::gen::resize(100, rc::gen::inRange(lo, hi)); }
 
